@@ -25,6 +25,15 @@ What is read (keyed on item names, never on line numbers):
 4. yash-env/src/job/fmt.rs: `Marker::as_char` (three arms) -> `markerNone/Current/Previous : Char`; the
    field widths of `impl Display for Report` (`{pid:5} `, `{:20} {}`) -> `pidWidth`, `stateWidth`.
 
+5. (wave 3) yash-env/src/job.rs, the delegations the model relies on instead of transcribing a second body:
+   `JobList::remove_if` drains `self.extract_if(should_remove)` (`.for_each(drop)`, `.for_each(|_| ())`,
+   `.count()`, `.last()`, `for _ in … {}`, `while it.next().is_some() {}`) -> `removeIfDrainsExtractIf`;
+   the deprecated `JobList::add` is `self.insert(job)` -> `addIsAliasOfInsert`; `ExtractIf::next` still is the
+   loop `extractLoop` transcribes (`while self.len > 0`, `next_index += 1`, `get_mut(index)`, `len -= 1`,
+   `(self.should_remove)(index, job)`, `self.list.remove(index)`) -> `extractIfRemovesWithRemove`.
+   A body of another shape (e.g. `remove_if` re-implemented with `retain`) fails loudly: the model has to be
+   re-transcribed, a flag `false` is never written.
+
 Equivalent spellings a harmless refactoring would produce are read: integer literals in decimal / hex / with
 `_` and type suffixes, `NonZero::new(n)` / `NonZeroI32::new(n)` / `unsafe { …new_unchecked(n) }`, `Self::` or the
 type name in paths, `Cow::Borrowed("X")` / `"X".into()` / `Cow::from("X")`, `number == S::X` / `S::X == number`,
@@ -190,7 +199,67 @@ def fmt_consts(h):
     return markers, int(mp.group(1)), int(ms.group(1))
 
 
+JOB_RS = "yash-env/src/job.rs"
+
+
+def job_delegations(h):
+    """the three delegation shapes of job.rs (see 5. above); returns the spelling found for remove_if"""
+    src = strip_comments(h.read(JOB_RS))
+    squeeze = lambda t: re.sub(r"\s+", "", t)
+    # --- remove_if
+    m = re.search(r"\bfn\s+remove_if\b[^{;]*", src)
+    if not m:
+        h.fail(f"anchor not found: fn remove_if in {JOB_RS}")
+    pm = re.search(r"&\s*mut\s+self\s*,\s*(?:mut\s+)?(\w+)\s*:", m.group(0))
+    if not pm:
+        h.fail(f"{JOB_RS}: fn remove_if: cannot read the name of the predicate parameter")
+    arg = pm.group(1)
+    body = squeeze(fn_body(h, src, "remove_if", JOB_RS)).rstrip(";")
+    it = r"self\.extract_if\((?:&mut)?" + re.escape(arg) + r"\)"
+    sink = r"(?:\.for_each\((?:drop|(?:std::|core::)?mem::drop|\|_\w*\|(?:\(\)|\{\}|drop\(_\w*\)))\)|\.count\(\)|\.last\(\))"
+    shapes = [
+        r"(?:let_=|_=)?" + it + sink,
+        r"drop\(" + it + sink + r"\)",
+        r"for_\w*in" + it + r"\{\}",
+        r"letmut(\w+)=" + it + r";while\1\.next\(\)\.is_some\(\)\{\}",
+        r"letmut(\w+)=" + it + r";whileletSome\(_\w*\)=\1\.next\(\)\{\}",
+    ]
+    if not any(re.fullmatch(sh, body) for sh in shapes):
+        h.fail(f"{JOB_RS}: fn remove_if no longer drains `self.extract_if({arg})` (body: {body[:160]}…): the model "
+               "(`JobList.removeIfDrop` = the table of `removeIf`) has to be re-transcribed from the new body")
+    # --- add
+    m = re.search(r"\bfn\s+add\b[^{;]*", src)
+    if not m:
+        h.fail(f"anchor not found: fn add in {JOB_RS}")
+    pm = re.search(r"&\s*mut\s+self\s*,\s*(?:mut\s+)?(\w+)\s*:", m.group(0))
+    if not pm:
+        h.fail(f"{JOB_RS}: fn add: cannot read the parameter name")
+    job = re.escape(pm.group(1))
+    body = squeeze(fn_body(h, src, "add", JOB_RS)).rstrip(";")
+    if not re.fullmatch(r"(?:return)?(?:self\.insert\(" + job + r"\)|(?:Self|JobList)::insert\(self," + job + r"\))", body):
+        h.fail(f"{JOB_RS}: fn add is no longer `self.insert({pm.group(1)})` (body: {body[:160]}): re-transcribe `JobList.add`")
+    # --- ExtractIf::next
+    imp = h.item_body(src, r"\bimpl\s*<[^>]*>\s*Iterator\s+for\s+ExtractIf\b[^{]*", f"impl Iterator for ExtractIf in {JOB_RS}")
+    body = squeeze(fn_body(h, imp, "next", "impl Iterator for ExtractIf"))
+    need = {
+        "while self.len > 0": r"while(?:self\.len>0|self\.len!=0|0<self\.len|0!=self\.len)\{",
+        "next_index += 1": r"self\.next_index(?:\+=1|=self\.next_index\+1)",
+        "self.list.get_mut(index)": r"self\.list\.get_mut\(\w+\)",
+        "len -= 1": r"self\.len(?:-=1|=self\.len-1)",
+        "(self.should_remove)(index, job)": r"\(self\.should_remove\)\(\w+,\w+\)",
+        "self.list.remove(index)": r"self\.list\.remove\(\w+\)",
+    }
+    missing = [k for k, rx in need.items() if not re.search(rx, body)]
+    if missing:
+        h.fail(f"{JOB_RS}: ExtractIf::next no longer has the shape `extractLoop` transcribes (missing: {', '.join(missing)})")
+    for extra in ["retain", "pids_to_indices", "current_job_index", "previous_job_index"]:
+        if extra in body:
+            h.fail(f"{JOB_RS}: ExtractIf::next touches `{extra}` itself: `extractLoop` (removal through `JobList::remove`) "
+                   "has to be re-transcribed")
+
+
 def job_tables(h):
+    job_delegations(h)
     numbers = virtual_numbers(h)
     consts, rtmin, rtmax = virtual_signals_impl(h, numbers)
     arms = sig2str_arms(h)
@@ -227,6 +296,13 @@ def job_tables(h):
              f"def markerPrevious : Char := {h.lean_char(markers['PreviousJob'])}\n\n"
              "/-- field widths of `impl Display for Report`: `{pid:W} `, `{:W} {}` -/\n"
              f"def pidWidth : Nat := {pid_w}\n\ndef stateWidth : Nat := {state_w}\n")
+    body += ("\n/-- yash-env/src/job.rs: `JobList::remove_if` drains `self.extract_if(should_remove)` (checked on every run;\n"
+             "    any other body makes the translator fail) -/\n"
+             "def removeIfDrainsExtractIf : Bool := true\n\n"
+             "/-- the deprecated `JobList::add` is `self.insert(job)` -/\n"
+             "def addIsAliasOfInsert : Bool := true\n\n"
+             "/-- `ExtractIf::next` scans the indices upwards and removes with `JobList::remove` -/\n"
+             "def extractIfRemovesWithRemove : Bool := true\n")
     h.write("JobTables", body)
 
 
